@@ -69,6 +69,28 @@ def HStep.targets (f : Forest) : HStep → List Nat
   | .call c => c.targets f
   | _ => []
 
+/-- The node-returning reads of the forest (access.rs navigation, node-map views), as data. -/
+inductive Read where
+  | parent (n : Nat) | firstChild (n : Nat) | lastChild (n : Nat)
+  | nextSibling (n : Nat) | previousSibling (n : Nat) | ancestors (n : Nat)
+  | children (n : Nat) | descendants (n : Nat)
+  | mapNodes (k : MapKind) (n : Nat) | mapGetNode (k : MapKind) (n key : Nat)
+  | roots
+
+/-- Every handle the read hands out. -/
+def Read.result (f : Forest) : Read → List Nat
+  | .parent n => (f.parent? n).toList
+  | .firstChild n => (f.firstChild n).toList
+  | .lastChild n => (f.lastChild n).toList
+  | .nextSibling n => (f.nextSibling n).toList
+  | .previousSibling n => (f.prevSibling n).toList
+  | .ancestors n => f.ancestors n
+  | .children n => ((f.get? n).map (fun t => t.kids.map (·.handle))).getD []
+  | .descendants n => ((f.get? n).map HTree.handles).getD []
+  | .mapNodes k n => ((f.get? n).map (fun t => (mapChildren k t).map (·.handle))).getD []
+  | .mapGetNode k n key => ((f.mapGetNode k n key).map (·.handle)).toList
+  | .roots => f.roots.map (·.handle)
+
 end Forest
 
 /-- The calls of the C04 history type `Op` as steps. -/
